@@ -7,6 +7,7 @@ pub type Cost = symx_int::SymInt;
 #[cfg(not(feature = "symx"))]
 pub type Cost = isize;
 
+mod cont;
 mod dd;
 mod fam;
 #[cfg(feature = "sched")]
@@ -233,6 +234,45 @@ fn run_par(a: &Args, limits: &Limits, symbolic: bool, initial: &[(String, i64)])
     }
 }
 
+fn run_cont(a: &Args, limits: &Limits, symbolic: bool, initial: &[(String, i64)]) {
+    let kind = a.get("kind", "fringe");
+    let seed0 = a.num("seed", 1);
+    let count = a.num("count", 1);
+    for seed in seed0..seed0 + count {
+        let mut case = a.0.clone();
+        case.insert("seed".into(), seed.to_string());
+        case.insert("count".into(), "1".into());
+        case.remove("inputs");
+        let (rep, desc) = match kind.as_str() {
+            "fringe" => {
+                let ops = cont::fringe_ops(seed, a.num("len", 6) as usize, a.num("states", 2) as u8, a.num("depths", 2) as usize);
+                let nodup = a.get("fringe", "nodup") == "nodup";
+                (explore(limits, seed, symbolic, initial, &mut || cont::fringe_body(nodup, &ops)), format!("{:?}", ops))
+            }
+            "cache" => {
+                let ops = cont::cache_ops(seed, a.num("len", 5) as usize);
+                (explore(limits, seed, symbolic, initial, &mut || cont::cache_body(&ops)), format!("{:?}", ops))
+            }
+            "dominance" => {
+                let (nq, uv) = (a.num("len", 4) as usize, a.flag("use_value"));
+                (explore(limits, seed, symbolic, initial, &mut || cont::dominance_body(seed, nq, uv)), format!("{} queries + 2 probes, use_value={}", nq, uv))
+            }
+            #[cfg(feature = "sched")]
+            "cacheconc" => {
+                let (nt, nops, pre) = (a.num("threads", 2) as usize, a.num("ops", 1) as usize, a.num("preempt", 2) as u32);
+                (explore(limits, seed, symbolic, initial, &mut || cont::cache_conc_body(nt, nops, pre, seed)), format!("{} threads x {} update+get on one key", nt, nops))
+            }
+            #[cfg(feature = "sched")]
+            "domconc" => {
+                let (nt, pre, uv) = (a.num("threads", 2) as usize, a.num("preempt", 2) as u32, a.flag("use_value"));
+                (explore(limits, seed, symbolic, initial, &mut || cont::dominance_conc_body(nt, pre, uv)), format!("{} threads, one insertion each, 2 probes", nt))
+            }
+            x => panic!("kind={} not available in this build", x),
+        };
+        emit(&case, &desc, &rep);
+    }
+}
+
 fn main() {
     let mut m = BTreeMap::new();
     for arg in std::env::args().skip(1) {
@@ -251,6 +291,7 @@ fn main() {
     match a.get("kind", "dd").as_str() {
         "dd" => run_dd(&a, &limits, symbolic, &initial),
         "solve" => run_solve(&a, &limits, symbolic, &initial),
+        "fringe" | "cache" | "dominance" | "cacheconc" | "domconc" => run_cont(&a, &limits, symbolic, &initial),
         #[cfg(feature = "sched")]
         "par" => run_par(&a, &limits, symbolic, &initial),
         "find" => {
@@ -263,6 +304,55 @@ fn main() {
                 gp.seed = s;
                 let f = Shape::generate(&gp).features();
                 if wantf.iter().all(|w| f.contains(w)) {
+                    found.push(s.to_string());
+                    if found.len() as u64 >= take {
+                        break;
+                    }
+                }
+            }
+            println!("{}", found.join(","));
+        }
+        "finddyn" => {
+            // dynamic feature-directed sampling: seeds whose structure shows ALL the wanted notes in ONE concrete
+            // run of the diagram-level body under some of `tries` pseudo-random cost vectors
+            let wantn = a.list("notes", "");
+            let (start, count, take, tries) = (a.num("start", 1), a.num("count", 1000), a.num("take", 8), a.num("tries", 24));
+            let mut found = vec![];
+            let mut gp = gen_params(&a);
+            let lim = Limits { max_paths: 1, max_secs: 5.0, max_violations: 1000 };
+            for s in start..start + count {
+                gp.seed = s;
+                let shape = Shape::generate(&gp);
+                let c = dd::DdCase {
+                    shape: shape.clone(),
+                    rub: Rub::None,
+                    comp: match a.get("comp", "relaxed").as_str() {
+                        "restricted" => CompilationType::Restricted,
+                        "exact" => CompilationType::Exact,
+                        _ => CompilationType::Relaxed,
+                    },
+                    width: a.num("width", 2) as usize,
+                    root: a.num("roots", 0) as usize,
+                    sym_lb: false,
+                    rev_rank: false,
+                    history: 0,
+                    hist_seed: 0,
+                    viz_all: false,
+                    props: vec!["C06".to_string(), "C08".to_string()],
+                };
+                let mut hit = false;
+                for t in 0..tries {
+                    let rep = match a.get("dd", "frontier").as_str() {
+                        "lel" => explore(&lim, s * 1000 + t, false, &[], &mut || dd::body::<Mdd<St, { LAST_EXACT_LAYER }>>(&c)),
+                        "pooled" => explore(&lim, s * 1000 + t, false, &[], &mut || dd::body::<Pooled<St>>(&c)),
+                        _ => explore(&lim, s * 1000 + t, false, &[], &mut || dd::body::<Mdd<St, { FRONTIER }>>(&c)),
+                    };
+                    if wantn.iter().all(|w| rep.notes.get(w).copied().unwrap_or(0) > 0) {
+                        hit = true;
+                        break;
+                    }
+                }
+                if hit {
                     found.push(s.to_string());
                     if found.len() as u64 >= take {
                         break;
